@@ -38,6 +38,19 @@ MUTATIONS = [
      'for i in numba.prange(npartition // 2):', 'for i in numba.prange((npartition + 1) // 2):'),
     ('c07-odd-pass-wrong-slice', 'C07', 'abacusnbody/analysis/tsc.py',
      'ppart[starts[2 * i + 1] : starts[2 * i + 2]],', 'ppart[starts[2 * i] : starts[2 * i + 2]],'),
+    # ---- C06
+    ('c06-centre-weight', 'C06', 'abacusnbody/analysis/tsc.py', 'wy = P75 - dy**2', 'wy = P75 - dy'),
+    ('c06-floor-not-round', 'C06', 'abacusnbody/analysis/tsc.py', 'iz = itype(round(pz))', 'iz = itype(pz)'),
+    ('c06-offset-ignored-z', 'C06', 'abacusnbody/analysis/tsc.py',
+     'pz = (positions[n, 2] + offset) * inv_hz', 'pz = positions[n, 2] * inv_hz'),
+    ('c06-wrap-single-branch', 'C06', 'abacusnbody/analysis/tsc.py',
+     '            elif pos[i, j] < 0:\n                pos[i, j] += box', '            elif pos[i, j] < 0:\n                pos[i, j] = -pos[i, j]'),
+    ('c06-cic-swapped-neighbours', 'C06', 'abacusnbody/analysis/cic.py',
+     '        if dy > 0.0:\n            wym1 = dy\n            wyp1 = 0.0', '        if dy > 0.0:\n            wyp1 = dy\n            wym1 = 0.0'),
+    ('c06-cic-weight-dropped', 'C06', 'abacusnbody/analysis/cic.py',
+     'density[ixp1, iyp1, izp1] += wxp1 * wyp1 * wzp1 * W', 'density[ixp1, iyp1, izp1] += wxp1 * wyp1 * wzp1'),
+    ('c06-anisotropic-hy', 'C06', 'abacusnbody/analysis/tsc.py', 'inv_hy = ftype(gy / boxsize)', 'inv_hy = ftype(gx / boxsize)'),
+    ('c06-rightwrap-if', 'C06', 'abacusnbody/analysis/tsc.py', '    while x >= L:\n        x -= L', '    if x >= L:\n        x -= L'),
     # ---- C17
     ('c17-shared-histogram', 'C17', 'abacusnbody/analysis/tsc.py',
      'counts[t, keys[i]] += 1', 'counts[0, keys[i]] += 1'),
